@@ -492,6 +492,7 @@ REPEAT_CHILD = r'''
 import json, sys
 sys.path.insert(0, sys.argv[1]); sys.path.insert(0, sys.argv[2])
 import mc.props.c07 as c07
+junk = [object() for _ in range(int(sys.argv[6]))]      # another allocation history before anything runs
 print(json.dumps(c07.repeat_in_process(sys.argv[3], json.loads(sys.argv[4]), int(sys.argv[5]))))
 '''
 
@@ -515,23 +516,26 @@ def repeat_in_process(kind, seed, steps):
 
 
 def repeat_case(case):
-    # run in a fresh interpreter: what the second run sees (heap layout, global generator state) is then the same
-    # every time this case is executed, so a violation replays identically
+    # run in fresh interpreters: what the second run sees (heap layout, global generator state) is then the same
+    # every time this case is executed, so a violation replays identically.  Two interpreters with different
+    # allocation histories (the second one starts by allocating 50 000 objects) must agree as well.
     tree = os.path.dirname(os.path.dirname(os.path.abspath(Core.__file__)))
     verif = os.path.dirname(os.path.dirname(os.path.dirname(os.path.abspath(__file__))))
     env = dict(os.environ, PYTHONHASHSEED='0')
-    r = subprocess.run([sys.executable, '-c', REPEAT_CHILD, tree, verif, case['kind'], json.dumps(case['seed']),
-                        str(case['steps'])], capture_output=True, text=True, env=env, timeout=600)
-    if r.returncode != 0:
-        raise Violation('child process of the repeat leg failed', observed=(r.stderr.strip().splitlines() or [''])[-1])
-    first, second = json.loads(r.stdout.strip().splitlines()[-1])
-    if first != second:
-        raise Violation(f'two runs of the {case["kind"]} model with seed {case["seed"]} in one process gave different '
-                        f'trajectories', expected=first, observed=second)
-    if first != solo(case['kind'], case['seed'], case['steps']):
-        raise Violation(f'the {case["kind"]} model with seed {case["seed"]} gave another trajectory in a fresh '
-                        f'interpreter than in this process', expected=solo(case['kind'], case['seed'], case['steps']),
-                        observed=first)
+    firsts = []
+    for prealloc in (0, 50000):
+        r = subprocess.run([sys.executable, '-c', REPEAT_CHILD, tree, verif, case['kind'], json.dumps(case['seed']),
+                            str(case['steps']), str(prealloc)], capture_output=True, text=True, env=env, timeout=600)
+        if r.returncode != 0:
+            raise Violation('child process of the repeat leg failed', observed=(r.stderr.strip().splitlines() or [''])[-1])
+        first, second = json.loads(r.stdout.strip().splitlines()[-1])
+        if first != second:
+            raise Violation(f'two runs of the {case["kind"]} model with seed {case["seed"]} in one process gave different '
+                            f'trajectories', expected=first, observed=second)
+        firsts.append(first)
+    if firsts[0] != firsts[1]:
+        raise Violation(f'the {case["kind"]} model with seed {case["seed"]} gave another trajectory in a fresh interpreter '
+                        f'with a different allocation history', expected=firsts[0], observed=firsts[1])
 
 
 def replay(case):
